@@ -453,7 +453,13 @@ def run_shard(spec, ctx):
         if res:
             return (res[0], res[1] + "\n--- text\n" + text[:1500], case)
         return None
-    core.hyp_search(ctx, strat, check, spec["examples"], "c08-" + spec["part"], max_buckets=8)
+    # in chunks: the library's record of explored choices grows with the number of examples of one search (a thorough-tier
+    # tree shard ran out of its 6 GB address-space limit inside the library)
+    left, j = spec["examples"], 0
+    while left > 0:
+        core.hyp_search(ctx, strat, check, min(left, 1500), "c08-" + spec["part"] + (f"-{j}" if j else ""), max_buckets=8)
+        left -= 1500
+        j += 1
 
 
 def replay(case):
